@@ -340,6 +340,20 @@ func (e *Env) bin(n *EBin) Val {
 			e.fail("cannot type comparison %s", exprString(n))
 		}
 		_, signed, ok := intInfo(t)
+		if !ok && a.S == "Str" && b.S == "Str" {
+			var tt string
+			switch n.Op {
+			case "<":
+				tt = fmt.Sprintf("(str-lt %s %s)", a.T, b.T)
+			case ">":
+				tt = fmt.Sprintf("(str-lt %s %s)", b.T, a.T)
+			case "<=":
+				tt = fmt.Sprintf("(not (str-lt %s %s))", b.T, a.T)
+			default:
+				tt = fmt.Sprintf("(not (str-lt %s %s))", a.T, b.T)
+			}
+			return Val{T: tt, S: "Bool", GT: types.Typ[types.Bool]}
+		}
 		if !ok {
 			e.fail("ordered comparison on non-integer %s", exprString(n))
 		}
@@ -969,6 +983,14 @@ func (e *Env) call(n *ECall) Val {
 	case "runeAt":
 		v := e.tr(n.Args[0])
 		return Val{T: fmt.Sprintf("(rune-at %s %s)", v.T, e.asIdx(e.tr(n.Args[1]))), S: g.isort(32), GT: types.Typ[types.Int32]}
+	case "deref":
+		// deref(p): the value p points to (pointer to a non-struct value: *[]byte, *int, ...), in the state of the expression
+		v := e.tr(n.Args[0])
+		pt, ok := typeUnder(v.GT).(*types.Pointer)
+		if !ok {
+			e.fail("deref of non-pointer")
+		}
+		return Val{T: g.load(e.state(), g.addrOf(v)), S: g.sortOf(pt.Elem()), GT: pt.Elem()}
 	case "slen":
 		v := e.tr(n.Args[0])
 		return Val{T: fmt.Sprintf("(slen %s)", v.T), S: g.idx(), GT: types.Typ[types.Int]}
